@@ -86,7 +86,7 @@ V_REQUIRES(g_r0 == g.regexec_calls && g_fr0 == g.mit_freed && g_fc0 == g_free_ca
 V_ASSIGNS(g_mit->m, g_mit->idx, g.mit_freed, g.itr_get_calls, g.regexec_calls, g_free_calls, g_free_arg, g_free_arg0)
 V_FREES(g_mit)
 /* subscribed iff the exact topic is there or some pattern matches; the exact entry wins without scanning */
-V_ENSURES((V_RET != NULL) == (g_exact || g_match_at < g_tab->len))                                                                              /*@C02.subscribed-iff-exact-topic-or-a-matching-pattern*/
+V_ENSURES((V_RET != NULL) == (g_exact || g_match_at < g_tab->len))                                                                              /*@C02.subscribed-iff-exact-topic-or-a-matching-pattern*/ /*@C19.system-topics-reach-pattern-subscribers-like-any-topic*/
 V_ENSURES(V_IMP(g_exact, g.regexec_calls == g_r0) && V_IMP(!g_exact && g_match_at < g_tab->len, g.regexec_calls == g_r0 + g_match_at + 1)
           && V_IMP(!g_exact && g_match_at >= g_tab->len, g.regexec_calls == g_r0 + g_tab->len))                                                 /*@C02.first-matching-pattern-in-table-order*/
 /* the scan's iterator is released on every way out (early exit frees it by hand) */
